@@ -3,6 +3,8 @@
 
   Property theorems only; proofs are one-liners calling CSD/Lemmas.
 -/
+import CSD.Generated.Bodies
+import CSD.Model.SourceText
 import CSD.Lemmas.VByte
 import CSD.Lemmas.LogSeq
 import CSD.Lemmas.LogSeqIO
@@ -105,5 +107,21 @@ example : (∀ s ∈ ([[5], [7, 8, 9], [1, 2]] : List (List Nat)), s ≠ []) ∧
 
 /-- Non-vacuity: a 50-bit field at index 1 straddles words 0 and 1. -/
 example : (1 * 50 + 50 ≤ 64 * (LogSeq.mk 50 2).data.length) ∧ (1 * 50) % 64 + 50 > 64 := by decide
+
+/-- The models this file's theorems are about were written against the current text of the C++
+functions they mirror (`CSD/Generated/Bodies.lean` is re-extracted from the sources on every run,
+`CSD/Model/SourceText.lean` is what was reviewed): an edit of one of these functions breaks this
+obligation even if no generated input tells the behaviours apart. -/
+theorem models_match_source_text :
+    Generated.body_VByte_encode = SourceText.body_VByte_encode ∧
+    Generated.body_VByte_decode = SourceText.body_VByte_decode ∧
+    Generated.body_LogSequence_get_field = SourceText.body_LogSequence_get_field ∧
+    Generated.body_LogSequence_set_field = SourceText.body_LogSequence_set_field ∧
+    Generated.body_LogSequence_vector_ctor = SourceText.body_LogSequence_vector_ctor ∧
+    Generated.body_LogSequence_load = SourceText.body_LogSequence_load ∧
+    Generated.body_LogSequence_save = SourceText.body_LogSequence_save ∧
+    Generated.body_DAC_VLS_ctor = SourceText.body_DAC_VLS_ctor ∧
+    Generated.body_DAC_VLS_access = SourceText.body_DAC_VLS_access ∧
+    Generated.body_DAC_VLS_access_next = SourceText.body_DAC_VLS_access_next := ⟨rfl, rfl, rfl, rfl, rfl, rfl, rfl, rfl, rfl, rfl⟩
 
 end CSD.Props.C17
